@@ -697,9 +697,21 @@ func (s *Server) handleRequest(req *dhcpv4.DHCPv4) (*dhcpv4.DHCPv4, error) {
 		}
 	}
 
+	// A lease found through the circuit-ID index under another MAC (a new
+	// device on the same circuit) moves to the requesting device: the old
+	// entry must not stay behind as a second lease on the same address.
+	var movedFrom net.HardwareAddr
 	s.leasesMu.Lock()
 	s.leases[mac.String()] = lease
+	if existingLease != nil && existingLease.MAC.String() != mac.String() &&
+		s.leases[existingLease.MAC.String()] == existingLease {
+		delete(s.leases, existingLease.MAC.String())
+		movedFrom = existingLease.MAC
+	}
 	s.leasesMu.Unlock()
+	if movedFrom != nil && s.loader != nil {
+		s.loader.RemoveSubscriber(ebpf.MACToUint64(movedFrom))
+	}
 
 	// Maintain circuit-ID secondary index for relay-aware lookup
 	if len(lease.CircuitID) > 0 {
